@@ -312,3 +312,171 @@ Proof.
       apply run_ret in R2. destruct R2 as [_ K]. inversion K. reflexivity.
     + cbn [bind fst snd] in H. rewrite Hs, Hp in H. apply run_ret in H. destruct H as [_ K]. inversion K. reflexivity.
 Qed.
+
+(* ================================================================ C06: the life of a switch request *)
+Definition same_request (a b : switch_rec) : Prop :=
+  sw_from a = sw_from b /\ sw_to a = sw_to b /\ sw_cause_ a = sw_cause_ b /\ sw_kind a = sw_kind b /\
+  sw_master_transition a = sw_master_transition b /\ sw_initiated_at a = sw_initiated_at b.
+
+Lemma same_request_refl a : same_request a a. Proof. repeat split. Qed.
+Lemma with_result_same sw ok t rc : same_request sw (with_result sw ok t rc). Proof. repeat split. Qed.
+
+(* the attempt limit: a planned request at or over the limit is rejected, whatever the cluster looks like *)
+Theorem approve_switchover_limit cfg sw active cs :
+  is_failover sw = false -> 0 < c_switchover_max_attempts cfg -> c_switchover_max_attempts cfg <= sw_run_count sw ->
+  approve_switchover cfg sw active cs = Some 814.
+Proof.
+  intros Hf Hm Hr. unfold approve_switchover. rewrite Hf. cbn [negb andb].
+  assert (0 <? c_switchover_max_attempts cfg = true) as -> by (apply Z.ltb_lt; exact Hm).
+  assert (c_switchover_max_attempts cfg <=? sw_run_count sw = true) as -> by (apply Z.leb_le; exact Hr). reflexivity.
+Qed.
+
+(* an approved request is not re-judged: once an attempt was made, only the attempt limit can reject it *)
+Theorem approve_switchover_not_rejudged cfg sw active cs :
+  0 < sw_run_count sw ->
+  (is_failover sw = true \/ c_switchover_max_attempts cfg <= 0 \/ sw_run_count sw < c_switchover_max_attempts cfg) ->
+  approve_switchover cfg sw active cs = None.
+Proof.
+  intros Hr Hl. unfold approve_switchover.
+  assert (negb (is_failover sw) && (0 <? c_switchover_max_attempts cfg) && (c_switchover_max_attempts cfg <=? sw_run_count sw) = false) as ->.
+  { destruct Hl as [Hl|[Hl|Hl]].
+    - rewrite Hl. reflexivity.
+    - assert (0 <? c_switchover_max_attempts cfg = false) as -> by (apply Z.ltb_ge; exact Hl). rewrite andb_false_r. reflexivity.
+    - assert (c_switchover_max_attempts cfg <=? sw_run_count sw = false) as -> by (apply Z.leb_gt; exact Hl). rewrite andb_false_r. reflexivity. }
+  assert (0 <? sw_run_count sw = true) as -> by (apply Z.ltb_lt; exact Hr). reflexivity.
+Qed.
+
+(* a fresh request is judged by the quorum of alive replicas in the published list only *)
+Theorem approve_switchover_fresh cfg sw active cs :
+  sw_run_count sw = 0 -> (is_failover sw = true \/ c_switchover_max_attempts cfg <= 0 \/ 0 < c_switchover_max_attempts cfg) ->
+  (approve_switchover cfg sw active cs = None <->
+   check_quorum (c_semi_sync cfg) (c_wait_count cfg) (Z.of_nat (length active)) (count_alive_ha_slaves_within active cs) = true).
+Proof.
+  intros Hr _. unfold approve_switchover. rewrite Hr.
+  assert (negb (is_failover sw) && (0 <? c_switchover_max_attempts cfg) && (c_switchover_max_attempts cfg <=? 0) = false) as ->.
+  { destruct (0 <? c_switchover_max_attempts cfg) eqn:E; [|rewrite andb_false_r; reflexivity].
+    apply Z.ltb_lt in E. assert (c_switchover_max_attempts cfg <=? 0 = false) as -> by (apply Z.leb_gt; exact E). rewrite andb_false_r. reflexivity. }
+  cbn [Z.ltb Z.compare]. destruct (check_quorum _ _ _ _); split; intros H; try reflexivity; discriminate.
+Qed.
+
+(* FailSwitchover: one coordination write - the SAME request with the attempt counted and a failed result *)
+Theorem fail_switchover_counts sw tr o : runs (fail_switchover sw) tr o ->
+  exists e0 e1, tr = [e0; e1] /\ ev_call e0 = Now /\
+    ev_call e1 = DcsSet PSwitch (VSwitch (with_result sw false (now_val e0) (sw_run_count sw + 1))).
+Proof.
+  unfold fail_switchover. intros H. apply run_now in H. destruct H as (e0 & tr' & -> & Ec & H).
+  unfold dcs_set_ in H. cbn [runs] in H. destruct tr' as [|e1 tr'']; [destruct H|]. destruct H as (_ & Ec1 & H).
+  exists e0, e1. split; [|split; [exact Ec|exact Ec1]].
+  destruct (ev_resp e1) as [er| | | | | | | | | | | | | |]; cbn in H; destruct H as [-> _]; reflexivity.
+Qed.
+
+(* FinishSwitchover: the request is removed and then recorded exactly once - as succeeded iff ok - and the
+   record is the same request with its result; nothing is recorded when the removal fails *)
+Definition is_switch_key_write (c : call) : Prop :=
+  match c with
+  | DcsDelete PSwitch | DcsSet PSwitch _ | DcsCreate PSwitch _ | DcsSet PLastSwitch _ | DcsSet PLastRejected _ => True
+  | _ => False
+  end.
+
+Fixpoint switch_writes (tr : trace) : list event :=
+  match tr with
+  | [] => []
+  | e :: r => match ev_call e with
+              | DcsDelete PSwitch | DcsSet PSwitch _ | DcsCreate PSwitch _ | DcsSet PLastSwitch _ | DcsSet PLastRejected _ => e :: switch_writes r
+              | _ => switch_writes r
+              end
+  end.
+
+Lemma switch_writes_app a b : switch_writes (a ++ b) = switch_writes a ++ switch_writes b.
+Proof. induction a as [|e r IH]; [reflexivity|]. cbn. destruct (ev_call e); try exact IH; destruct p; try exact IH; cbn; rewrite IH; reflexivity. Qed.
+
+Definition timing_call (c : call) : Prop := match c with Now | DcsGet (PTiming _) | DcsDelete (PTiming _) | DcsSet (PTiming _) _ => True | _ => False end.
+
+Lemma switch_writes_timing tr : Forall (fun e => timing_call (ev_call e)) tr -> switch_writes tr = [].
+Proof.
+  induction tr as [|e r IH]; intros H; [reflexivity|]. inversion H as [|? ? He Hr]; subst. cbn.
+  destruct (ev_call e); try (apply IH; exact Hr); destruct p; try (apply IH; exact Hr); destruct He.
+Qed.
+
+Ltac pnp := repeat first
+  [ exact I
+  | match goal with
+    | |- nopanic (bind _ _) => apply nopanic_bind; [|intros ?]
+    | |- nopanic (match ?x with _ => _ end) => destruct x
+    | |- nopanic (if ?x then _ else _) => destruct x
+    | |- nopanic (Do _ _ _) => cbn [nopanic]; intros ?
+    | |- nopanic (Ret _) => exact I
+    end ].
+Lemma np_stop_timing n : nopanic (stop_timing n).
+Proof. unfold stop_timing, now_, dcs_get_time, dcs_delete_. pnp. Qed.
+Lemma np_log_failure sw : nopanic (log_switchover_failure sw).
+Proof. unfold log_switchover_failure, now_, dcs_get_time, dcs_delete_. pnp. Qed.
+
+Lemma tc_stop_timing n : allcalls (fun _ c => timing_call c) (stop_timing n).
+Proof. unfold stop_timing, now_, dcs_get_time, dcs_delete_. pac0; exact I. Qed.
+Lemma tc_log_failure sw : allcalls (fun _ c => timing_call c) (log_switchover_failure sw).
+Proof. unfold log_switchover_failure, now_, dcs_get_time, dcs_delete_. pac0; exact I. Qed.
+
+Theorem finish_switchover_records sw ok tr o : runs (finish_switchover sw ok) tr o ->
+  exists t rc,
+    let rec := with_result sw ok t rc in
+    match switch_writes tr with
+    | [d] => ev_call d = DcsDelete PSwitch /\ ev_resp d <> ROk
+    | [d; s] => ev_call d = DcsDelete PSwitch /\ ev_resp d = ROk /\
+                ev_call s = (if ok then DcsSet PLastSwitch (VSwitch rec) else DcsSet PLastRejected (VSwitch rec))
+    | _ => False
+    end.
+Proof.
+  unfold finish_switchover. intros H. apply run_now in H. destruct H as (e0 & tr' & -> & Ec & H).
+  exists (now_val e0), (sw_run_count sw). cbn zeta.
+  assert (W0 : switch_writes (e0 :: tr') = switch_writes tr') by (cbn; rewrite Ec; reflexivity). rewrite W0. clear W0.
+  destruct (runs_bind_inv _ _ _ _ H) as [(t1 & t2 & u & R1 & R2 & ->)|(s & R1 & ->)].
+  2:{ exfalso. assert (A : nopanic (if negb ok then log_switchover_failure (with_result sw ok (now_val e0) (sw_run_count sw))
+                              else if negb (is_failover sw) then stop_timing 2 else stop_timing 1)).
+      { destruct (negb ok); [apply np_log_failure|]. destruct (negb (is_failover sw)); apply np_stop_timing. }
+      destruct (nopanic_sound _ A _ _ R1) as [x K]. discriminate K. }
+  assert (T1 : switch_writes t1 = []).
+  { apply switch_writes_timing. destruct (negb ok); [exact (allcalls_sound _ _ (tc_log_failure _) _ _ R1)|].
+    destruct (negb (is_failover sw)); exact (allcalls_sound _ _ (tc_stop_timing _) _ _ R1). }
+  rewrite switch_writes_app, T1. cbn [app].
+  unfold dcs_delete_ in R2. cbn [bind runs] in R2. destruct t2 as [|d t2']; [destruct R2|]. destruct R2 as (_ & Ed & R2).
+  cbn [switch_writes]. rewrite Ed.
+  destruct (ev_resp d) as [er| | | | | | | | | | | | | |] eqn:Er; cbn [bind] in R2;
+    try (cbn in R2; destruct R2 as [-> _]; cbn; split; [exact Ed|discriminate]).
+  destruct ok; unfold dcs_set_ in R2; cbn [runs] in R2; (destruct t2' as [|s t3]; [destruct R2|]); destruct R2 as (_ & Es & R2);
+    cbn [switch_writes]; rewrite Es;
+    (assert (t3 = []) as -> by (destruct (ev_resp s) as [er| | | | | | | | | | | | | |]; cbn in R2; destruct R2 as [-> _]; reflexivity));
+    cbn; repeat split; auto.
+Qed.
+
+(* F1 (C06 finding): a timed-out request is NOT finished - handle_switchover writes it back as pending with
+   one more attempt counted, and the next iteration does the same *)
+Theorem timed_out_request_stays_pending cfg env m cs active master sw tr o :
+  sw_initiated_at sw <> 0 ->
+  runs (handle_switchover cfg env m cs active master sw) tr o ->
+  forall e0 tr', tr = e0 :: tr' -> c_switchover_timeout cfg < now_val e0 - sw_initiated_at sw ->
+  exists d, switch_writes tr = [d] /\ exists t, ev_call d = DcsSet PSwitch (VSwitch (with_result sw false t (sw_run_count sw + 1))).
+Proof.
+  intros Hi H e0 tr' -> Ht. unfold handle_switchover in H. apply run_now in H. destruct H as (e & tr2 & E & Ec & H).
+  inversion E; subst e tr2. clear E.
+  assert (negb (sw_initiated_at sw =? 0) && (c_switchover_timeout cfg <? now_val e0 - sw_initiated_at sw) = true) as C.
+  { apply andb_true_iff. split; [apply negb_true_iff; apply Z.eqb_neq; exact Hi|apply Z.ltb_lt; exact Ht]. }
+  rewrite C in H.
+  destruct (runs_bind_inv _ _ _ _ H) as [(t1 & t2 & u & R1 & R2 & ->)|(s & R1 & ->)].
+  2:{ exfalso. destruct (nopanic_sound _ (np_log_failure sw) _ _ R1) as [x K]. discriminate K. }
+  assert (T1 : switch_writes t1 = []) by (apply switch_writes_timing; exact (allcalls_sound _ _ (tc_log_failure _) _ _ R1)).
+  assert (W0 : switch_writes (e0 :: t1 ++ t2) = switch_writes t2) by (cbn; rewrite Ec; rewrite switch_writes_app, T1; reflexivity). rewrite W0.
+  destruct (runs_bind_inv _ _ _ _ R2) as [(a1 & a2 & x & Ra & Rb & ->)|(s & Ra & ->)].
+  - destruct (fail_switchover_counts _ _ _ Ra) as (f0 & f1 & -> & Ef0 & Ef1). cbn in Rb. destruct Rb as [-> _].
+    exists f1. split; [cbn; rewrite Ef0, Ef1; reflexivity|]. exists (now_val f0). exact Ef1.
+  - destruct (fail_switchover_counts _ _ _ Ra) as (f0 & f1 & -> & Ef0 & Ef1).
+    exists f1. split; [cbn; rewrite Ef0, Ef1; reflexivity|]. exists (now_val f0). exact Ef1.
+Qed.
+
+(* attempts are bounded over any history: every failed attempt adds one, and a planned request is rejected at
+   the limit - so at most (limit - initial count) attempts are ever started *)
+Theorem attempts_bounded cfg (sw : switch_rec) (n : nat) active cs :
+  is_failover sw = false -> 0 < c_switchover_max_attempts cfg ->
+  let sw_n := with_result sw false 0 (sw_run_count sw + Z.of_nat n) in
+  c_switchover_max_attempts cfg <= sw_run_count sw + Z.of_nat n -> approve_switchover cfg sw_n active cs = Some 814.
+Proof. intros Hf Hm sw_n Hn. apply approve_switchover_limit; [exact Hf|exact Hm|exact Hn]. Qed.
